@@ -462,11 +462,10 @@ def run(rep, tier, replay):
                                              "traces_validated_against_impl": n, "samples": [sc], "replay": True,
                                              "per_binary": totals}, assumptions=assumptions)
 
-    # ---- leg E
+    # ---- leg E runs in the background while the puppets are built and their tables evaluated
     import c04_small
-    small = c04_small.run(rep, tier, exe, totals)
-    tlc_states += small["states"]
-    tlc_trans += small["transitions"]
+    pool = ThreadPoolExecutor(max_workers=1)
+    small_job = pool.submit(c04_small.run_models, tier, 4)
 
     # ---- leg O
     cfgs = matrix(tier)
@@ -492,21 +491,29 @@ def run(rep, tier, replay):
         p, c = job
         return oracle_for(builds[(p, cfg_key(c))], SRC / f"{p}.rs", f"{p}-{cfg_key(c)}")
 
-    with ThreadPoolExecutor(max_workers=6 if tier == "thorough" else 4) as ex:
+    with ThreadPoolExecutor(max_workers=4) as ex:
         oracles = list(ex.map(orc, jobs))
     vlib.log(f"[C04] {len(oracles)} tables evaluated by TLC {time.time()-t0:.0f}s")
     nbin = 0
     for (p, c), (dec, expected, r) in zip(jobs, oracles):
         tlc_states += r.distinct
         tlc_trans += r.generated
-        case = run_binary(rep, exe, p, cfg_key(c), builds[(p, cfg_key(c))], SRC / f"{p}.rs", dec, expected, totals)
+        run_binary(rep, exe, p, cfg_key(c), builds[(p, cfg_key(c))], SRC / f"{p}.rs", dec, expected, totals)
         nbin += 1
         if len(samples) < 6:
-            e = next(a for a in expected if a["q"] == "line" and len(a["funcs"]) > 1) if any(
-                a["q"] == "line" and len(a["funcs"]) > 1 for a in expected) else expected[0]
-            samples.append({"program": p, "config": cfg_key(c), "expected_by_tlc": e})
+            multi = [a for a in expected if a["q"] == "line" and len(a["funcs"]) > 1]
+            samples.append({"program": p, "config": cfg_key(c), "expected_by_tlc": (multi or expected)[0]})
     vlib.log(f"[C04] {nbin} binaries asked {time.time()-t0:.0f}s")
 
+    small = small_job.result()
+    pool.shutdown()
+    tlc_states += small["states"]
+    tlc_trans += small["transitions"]
+    # ---- leg S
+    synth = c04_small.run_synth(rep, exe, totals)
+    tlc_states += synth["states"]
+    tlc_trans += synth["transitions"]
+    small["summary"]["synth_objects"] = synth["synth_objects"]
     agg = {}
     for st in totals.values():
         for k, v in st.items():
@@ -517,8 +524,8 @@ def run(rep, tier, replay):
     if agg.get("pc_queries", 0) == 0 or agg.get("line_in_several_functions", 0) == 0 or agg.get("line_fallback_next", 0) == 0:
         raise vlib.ToolError(f"vacuous run: {agg}")
     cov = {"states": tlc_states, "transitions": tlc_trans,
-           "traces_validated_against_impl": nbin + small.get("synth_objects", 0),
-           "samples": samples + small.get("samples", []),
-           "queries_compared": queries, "binaries": nbin, "totals": agg, "small_tables": small.get("summary"),
+           "traces_validated_against_impl": nbin + synth["synth_objects"],
+           "samples": samples + synth["samples"],
+           "queries_compared": queries, "binaries": nbin, "totals": agg, "small_tables": small["summary"],
            "per_binary": totals, "skipped": {k: v["skipped"] for k, v in totals.items() if "skipped" in v}}
     return rep.finish("model_checking", cov, assumptions=assumptions)
